@@ -188,6 +188,9 @@ def stdStep (c : Cfg) (s : StdState) (i : HIn) : StdState × HOut :=
 def fallbackOut (i : HIn) : HOut :=
   { stall := i.dataRequested || i.statusRequested, txDataPid := true }
 
+/-- `USBRequestHandlerMultiplexer` with one handler: its outputs when it claims, else the fallback's. -/
+def muxOut (o : HOut) (i : HIn) : HOut := if o.claim then o else fallbackOut i
+
 /-! ### `USBControlEndpoint` -/
 
 def targeted (c : Cfg) (i : CycIn) : Bool := i.tokEp == c.epNum
@@ -270,7 +273,7 @@ def step (c : Cfg) (s : CycState) (i : CycIn) : CycState × CycOut :=
   let cc := ctrlComb c s.stage i
   let hi := handlerIn i cc
   let r := stdStep c s.h hi
-  let sel := if r.2.claim then r.2 else fallbackOut hi
+  let sel := muxOut r.2 hi
   ({ stage := ctrlNext c s.stage i, h := r.1 },
    { ack := i.sdAck || sel.ack || cc.pingAck
      nak := false
